@@ -8,8 +8,8 @@
 //!   cstr valid b<bytes> => 0|1                         (std::str::from_utf8)
 //!   cstr get <which> <cap> x<heap variant text> => b<prefix> <zeros>                 (context buffers, dumped to capacity)
 //!   own run <call,call,…> => ok                        (ghost model: protocol results, registry, no use of an invalid object)
-//!   own mem <call,call,…> => clean|ub                  (the same history under memcheck: exact corpus)
-//!   own memsub <clean|ub> <call,call,…> => ok          (memcheck error ⇒ the model predicted ub; random undisciplined histories)
+//!   own mem <call,call,…> => clean|ub                  (the same history under memcheck: the former F22 witnesses + twins, random histories)
+//!   own memsub <clean|ub> <call,call,…> => ok          (memcheck error ⇒ the model predicted ub; histories with mutations inside the user-phrase enumeration)
 //!
 //! a call is `<exported function>[:arg…][=<result>]`; the model classifies the function with the tables the translator
 //! regenerates from capi/src/io.rs.
@@ -220,6 +220,22 @@ const INT_OPTIONS: [&str; 12] = [
 const IX_ENGINE: usize = 10;
 
 const SELKEYS: [&str; 3] = ["1234567890", "asdfghjkl;", "aoeuhtnsid"];
+
+/// selection-key arrays for the legacy int setters (`chewing_set_selKey`, `chewing_Configure`), which store whatever ten
+/// integers they are given: ASCII, Latin-1 codes 0x80..=0xFF (keysyms of an AZERTY digit row), 0 for unused slots,
+/// values beyond a byte (low byte 0xE9 / 0x00), negative values.  Whatever the context holds, every string getter —
+/// `chewing_config_get_str("chewing.selection_keys")` in particular — must hand out well-formed text or an error.
+const SELKEY_ARRAYS: [[i32; 10]; 9] = [
+    [49, 50, 51, 52, 53, 54, 55, 56, 57, 48],
+    [0xE9, 0x22, 0x27, 0x28, 0x2D, 0xE8, 0x5F, 0xE7, 0xE0, 0x29],
+    [0x80, 0xFF, 0xA0, 0xC3, 0xA9, 0xBF, 0xC0, 0xDF, 0xF7, 0x81],
+    [0x7F, 0x80, 0x7E, 0xC2, 0xA0, 0xE2, 0x82, 0xAC, 0xF0, 0x9F],
+    [49, 50, 51, 52, 53, 0, 0, 0, 0, 0],
+    [0xE9, 0, 0xE8, 0, 97, 0, 0, 0, 0, 0],
+    [0x1E9, 0x141, 65, 66, 0x7FFF_FFE9, 67, 68, 69, 70, 0x2C3],
+    [256, 49, 50, 51, 52, 53, 54, 55, 56, 57],
+    [-1, -128, -23, -200, i32::MIN + 0xC3, 49, 50, 51, 52, 53],
+];
 
 const KEY_NAMES: [&str; 17] = [
     "Space", "Esc", "Enter", "Del", "Backspace", "Tab", "Left", "Right", "Up", "Down", "Home", "End", "PageUp",
@@ -776,6 +792,9 @@ impl Worker {
                         return "bad-pointer".into();
                     }
                     got = CStr::from_ptr(p).to_bytes().to_vec();
+                    if std::str::from_utf8(&got).is_err() {
+                        self.problem("utf8", format!("kbtype_String_static is not valid UTF-8: b{}", hexs(&got)));
+                    }
                     if p as usize != self.empty_ptr {
                         let dump = std::slice::from_raw_parts(p as *const u8, CAP_KBTYPE).to_vec();
                         let (pre, zeros) = split_dump(&dump);
@@ -817,6 +836,31 @@ impl Worker {
                 let r = chewing_config_set_str(c, c"chewing.selection_keys".as_ptr(), v.as_ptr());
                 self.tok("chewing_config_set_str", "", "");
                 format!("ret={}", r)
+            }
+            "ssk" => {
+                // the legacy setter: ten integers, stored as they are
+                let keys = SELKEY_ARRAYS[a1 as usize % SELKEY_ARRAYS.len()];
+                chewing_set_selKey(c, keys.as_ptr(), 10);
+                self.tok("chewing_set_selKey", "", "");
+                format!("{:?}", keys)
+            }
+            "conf" => {
+                // the legacy bulk call (ChewingConfigData is repr(C): 2 ints, 10 selection keys, 7 ints) with the current
+                // values of the other options
+                let keys = SELKEY_ARRAYS[a1 as usize % SELKEY_ARRAYS.len()];
+                let mut data: [c_int; 19] = [0; 19];
+                data[0] = chewing_get_candPerPage(c);
+                data[1] = chewing_get_maxChiSymbolLen(c);
+                data[2..12].copy_from_slice(&keys);
+                data[12] = chewing_get_addPhraseDirection(c);
+                data[13] = chewing_get_spaceAsSelection(c);
+                data[14] = chewing_get_escCleanAllBuf(c);
+                data[15] = chewing_get_autoShiftCur(c);
+                data[16] = chewing_get_easySymbolInput(c);
+                data[17] = chewing_get_phraseChoiceRearward(c);
+                let r = chewing_Configure(c, data.as_mut_ptr().cast());
+                self.tok("chewing_Configure", "", "");
+                format!("ret={} {:?}", r, keys)
             }
             "cfg" => {
                 let ix = a1 as usize % INT_OPTIONS.len();
@@ -900,11 +944,56 @@ impl Worker {
                 let nm = if a1 % 2 == 0 { c"chewing.keyboard_type" } else { c"chewing.selection_keys" };
                 let r = chewing_config_get_str(c, nm.as_ptr(), &mut p);
                 let t = self.take_heap(p, "config_get_str").unwrap_or_default();
+                if (r == 0) == p.is_null() {
+                    self.problem("proto-cgs", format!("chewing_config_get_str returned {} with a {} result pointer", r, if p.is_null() { "NULL" } else { "non-NULL" }));
+                }
+                if a1 % 2 != 0 {
+                    // the selection keys as the context holds them (chewing_get_selKey points into the context)
+                    let kp = chewing_get_selKey(c);
+                    if !kp.is_null() {
+                        let keys: Vec<i32> = std::slice::from_raw_parts(kp as *const i32, 10).to_vec();
+                        let ks: Vec<String> = keys.iter().map(|k| k.to_string()).collect();
+                        // model record: the text is the UTF-8 encoding of `char::from(key as u8)` per key, an error iff a low byte is 0
+                        self.gets.insert(format!("cstr selkeys {} => {} {}", ks.join(","), r, if p.is_null() { "-".to_string() } else { format!("x{}", hexs(&t)) }));
+                        // and directly: what a reader decodes is one character per key, the key's low byte as a code point
+                        let want: String = keys.iter().map(|k| char::from(*k as u8)).collect();
+                        if keys.iter().any(|k| *k as u8 == 0) {
+                            if r == 0 {
+                                self.problem("selkeys-text", format!("config_get_str(selection_keys) = OK x{} although a key's low byte is 0: keys {:?}", hexs(&t), keys));
+                            }
+                        } else if r != 0 || t != want.as_bytes() {
+                            self.problem("selkeys-text", format!("config_get_str(selection_keys) = {} x{} but the keys {:?} read x{}", r, hexs(&t), keys, hexs(want.as_bytes())));
+                        }
+                    }
+                }
                 if !p.is_null() {
                     self.keep(p.cast(), t.len() + 1);
                     self.tok("chewing_config_get_str", &(p as usize).to_string(), "");
                 }
                 format!("ret={} x{}", r, hexs(&t))
+            }
+            "p2b" => {
+                // pure helper writing into a caller buffer of `len` bytes (a heap block: memcheck sees any overrun)
+                let (phone, len) = (a1 as u16, (a2 as usize).min(64));
+                let mut buf = vec![0xAAu8; len];
+                let r = chewing_phone_to_bopomofo(phone, if len == 0 { std::ptr::null_mut() } else { buf.as_mut_ptr().cast() }, len as u16);
+                self.tok("chewing_phone_to_bopomofo", "", "");
+                if r > 0 && len >= r as usize {
+                    let n = r as usize - 1;
+                    if buf[n] != 0 || buf[..n].contains(&0) {
+                        self.problem("nul", format!("phone_to_bopomofo({:#x}, len {}) = {}: the text is not NUL-terminated at {}: b{}", phone, len, r, n, hexs(&buf)));
+                    } else if std::str::from_utf8(&buf[..n]).is_err() {
+                        // (an empty text is well-formed: some 16-bit values, e.g. 0x6a07, are accepted by Syllable::try_from
+                        // and spell as "" — C13's subject, not a violation of the string contract)
+                        self.problem("utf8", format!("phone_to_bopomofo({:#x}) wrote b{}: not valid UTF-8", phone, hexs(&buf[..n])));
+                    }
+                    if buf[n + 1..].iter().any(|b| *b != 0xAA) {
+                        self.problem("overrun", format!("phone_to_bopomofo({:#x}, len {}) = {} wrote beyond its text: b{}", phone, len, r, hexs(&buf)));
+                    }
+                } else if buf.iter().any(|b| *b != 0xAA) {
+                    self.problem("overrun", format!("phone_to_bopomofo({:#x}, len {}) = {} wrote into a buffer that is too short: b{}", phone, len, r, hexs(&buf)));
+                }
+                format!("ret={}", r)
             }
             "gsk" => {
                 // chewing_get_selKey hands out a pointer INTO the context (not a heap result): reading it is fine,
@@ -1002,7 +1091,7 @@ fn repo_path() -> String {
     std::env::var("VERIF_REPO").unwrap_or_else(|_| "/repo".into())
 }
 
-/// history line: `<hid> <S|U> <T|B> <M|F<id.id…>> <op,op,…>`   (S = strict snapshot oracles, U = undisciplined family)
+/// history line: `<hid> <S|U> <T|B> <M|F<id.id…>> <op,op,…>`   (S = strict snapshot oracles; U = without them, unused since the F22 fix)
 unsafe fn run_history(line: &str) {
     let f: Vec<&str> = line.split(' ').collect();
     let (hid, fam, dict, user, ops) = (f[0], f[1], f[2], f[3], f.get(4).copied().unwrap_or(""));
@@ -1157,18 +1246,31 @@ fn gen_ops(rng: &mut Rng, disciplined: bool, len: usize) -> Vec<String> {
                 6 => "cln".to_string(),
                 _ => "clp".to_string(),
             }),
-            12 => new.push(match rng.below(5) {
-                0 => format!("kb:{}", rng.below(19)),
-                1 => format!("kbs:{}", rng.below(17)),
-                2 => format!("selk:{}", rng.below(3)),
+            12 => match rng.below(7) {
+                0 => new.push(format!("kb:{}", rng.below(19))),
+                1 => new.push(format!("kbs:{}", rng.below(17))),
+                2 => new.push(format!("selk:{}", rng.below(3))),
+                3 | 4 => {
+                    // legacy int setters with codes outside ASCII (0x80..=0xFF, 0, beyond a byte, negative), then the
+                    // string getter of the named option (and now and then the raw keys, the other string option)
+                    new.push(format!("{}:{}", rng.pick(&["ssk", "ssk", "conf"]), rng.below(SELKEY_ARRAYS.len() as u64)));
+                    new.push("cgs:1".into());
+                    if rng.chance(1, 3) {
+                        new.push((*rng.pick(&["gsk", "cgs:0", "hs:0"])).to_string());
+                    }
+                }
                 _ => {
                     let ix = rng.below(INT_OPTIONS.len() as u64);
                     let v = if ix == 3 { rng.range(1, 10) } else if ix == 7 { rng.range(0, 39) } else { rng.range(0, 2) };
-                    format!("cfg:{}:{}", ix, v)
+                    new.push(format!("cfg:{}:{}", ix, v));
                 }
-            }),
+            },
             13 => new.push((*rng.pick(&["reset", "ack", "commit", "clean", "cleanb", "dt", "cn:1"])).to_string()),
-            14 => new.push(match rng.below(4) {
+            14 => new.push(match rng.below(5) {
+                4 => {
+                    let (a, b) = (rng.below(65536), rng.below(65536));
+                    format!("p2b:{}:{}", *rng.pick(&[a, b, 0x2004, 0x0208, 0, 0xFFFF]), rng.below(20))
+                }
                 0 => "ps".to_string(),
                 1 => format!("hs:{}", rng.below(6)),
                 2 => "gsk".to_string(),
@@ -1184,7 +1286,9 @@ fn gen_ops(rng: &mut Rng, disciplined: bool, len: usize) -> Vec<String> {
             17 => {
                 // walk the whole keyboard-type enumeration, mixing the two getter variants
                 new.push("ke".into());
-                for _ in 0..(10 + rng.below(10)) {
+                // now and then far beyond the end (the u8 counter of the earlier code overflowed at the 256th read)
+                let reads = if rng.chance(1, 12) { 258 + rng.below(40) } else { 10 + rng.below(10) };
+                for _ in 0..reads {
                     if rng.chance(1, 2) {
                         new.push("kh".into());
                     }
@@ -1243,7 +1347,9 @@ fn gen_setup(rng: &mut Rng) -> (String, String) {
     (dict.to_string(), user)
 }
 
-/// the witnesses of F22 and their clean twins (exact memcheck corpus): (name, user file, ops, expected)
+/// the former witnesses of F22 (use of the borrowed user-phrase iterator after a mutation; repaired by `fix:
+/// chewing_userphrase_enumerate takes a snapshot …`) and their twins: every one of them must now be clean under
+/// memcheck and satisfy the strict snapshot oracles — a recurrence is reported as `new`.  (name, user file, ops)
 fn witness_corpus() -> Vec<(&'static str, &'static str, &'static str)> {
     let learn = "k:104,k:107,k:52,k:103,k:52,key:2"; // hk4 g4 Enter: commits 測試 => auto-learn => reload of the Trie
     vec![
@@ -1252,6 +1358,10 @@ fn witness_corpus() -> Vec<(&'static str, &'static str, &'static str)> {
         // has_next caches an owned entry: the get after the mutation is served from the cache, the next one is not
         ("w-f22-cached", "F0.3.4", "ue,uh,LEARN,ug,ug"),
         ("w-f22-hasnext", "F0.3.4", "ue,ug,LEARN,uh"),
+        // the other ways to replace the storage under a pending enumeration: add / remove (+ a key: reload), drained to the end
+        ("w-f22-add", "F0.3.4", "ue,ug,ua:5,ua:6,k:104,uh,ug,uh,ug,uh,ug,uh"),
+        ("w-f22-remove", "F0.3.4", "ue,uh,ur:0,ur:3,k:104,ug,uh,ug,uh,ug,uh,ug"),
+        ("w-f22-memory", "M", "ua:1,ua:2,ua:3,ue,ug,ua:4,ur:1,ur:2,ur:3,ug,uh,ug,uh,ug"),
         // clean twins: the mutation happens before the enumeration / the enumeration is restarted after it
         ("w-clean-before", "F0.3.4", "LEARN,ue,ug,uh,ug,uh,ug,uh,ug,uh"),
         ("w-clean-restart", "F0.3.4", "ue,ug,LEARN,ue,uh,ug,uh,ug,uh,ug,uh,ug,uh"),
@@ -1603,20 +1713,20 @@ fn parent_main() {
     copy_records(&mut out, &mut rng, thorough);
     out.flush();
 
-    // ---- 2. native histories (disciplined: the model predicts no use of an invalid object)
+    // ---- 2. native histories (the model predicts no use of an invalid object for ANY call order)
     let n_native = if thorough { 3000 } else { 260 };
     let mut lines = Vec::new();
     for i in 0..n_native {
         let (dict, user) = gen_setup(&mut rng);
         let len = 20 + rng.below(50) as usize;
-        let ops = gen_ops(&mut rng, true, len);
+        // every second history without the protocol discipline: mutations between enumerate and has_next/get (the
+        // enumeration is a snapshot: the strict oracles hold for every call order)
+        let ops = gen_ops(&mut rng, i % 2 == 0, len);
         lines.push(format!("n{} S {} {} {}", i, dict, user, ops.join(",")));
     }
-    // the clean witnesses also run natively with the strict oracles
+    // the former F22 witnesses and their twins also run natively with the strict oracles
     for (name, user, ops) in witness_corpus() {
-        if name.starts_with("w-clean") {
-            lines.push(format!("{} S T {} {}", name, user, ops));
-        }
+        lines.push(format!("{} S T {} {}", name, user, ops));
     }
     // F35: a pre-edit longer than its buffer (word-less syllables shown as their spelling after an engine change)
     {
@@ -1630,6 +1740,19 @@ fn parent_main() {
         ops.push(format!("cfgx:{}:0", IX_ENGINE));
         ops.push("hs:1".into());
         lines.push(format!("w-f35 S B M {}", ops.join(",")));
+    }
+    // selection keys that are not ASCII codes (legacy int setters) followed by the string getters: every array of the pool
+    {
+        let mut ops: Vec<String> = Vec::new();
+        for i in 0..SELKEY_ARRAYS.len() {
+            ops.push(format!("{}:{}", if i % 3 == 2 { "conf" } else { "ssk" }, i));
+            ops.push("cgs:1".into());
+            ops.push("cgs:0".into());
+        }
+        ops.push("gsk".into());
+        ops.push("selk:1".into());
+        ops.push("cgs:1".into());
+        lines.push(format!("w-selkeys S B M {}", ops.join(",")));
     }
     let (results, crashes) = run_all(&lines, false, 40);
     let mut seen_get = BTreeSet::new();
@@ -1661,7 +1784,7 @@ fn parent_main() {
     }
     out.flush();
 
-    // ---- 3. memcheck: exact corpus (witnesses of F22 + clean twins), disciplined histories, undisciplined histories
+    // ---- 3. memcheck: exact corpus (former witnesses of F22 + twins), random histories, mutations inside the enumeration
     if std::env::var("VERIF_NO_VALGRIND").is_err() {
         let mut mem_lines: Vec<String> = Vec::new();
         let corpus = witness_corpus();
@@ -1669,7 +1792,7 @@ fn parent_main() {
         let mut exact_ub = 0u64;
         let mut exact_clean = 0u64;
         for (name, user, ops) in &corpus {
-            let l = format!("{} U T {} {}", name, user, ops);
+            let l = format!("{} S T {} {}", name, user, ops);
             let o = run_worker(&[l.clone()], true);
             let r = o.results.get(*name).cloned().unwrap_or_default();
             let ub = has_memcheck_error(&r) || !r.ended;
@@ -1681,30 +1804,25 @@ fn parent_main() {
             }
             if ub {
                 exact_ub += 1;
-                if name.starts_with("w-f22") {
-                    out.oracle_fail("C15", "F22-userphrase-iter-stale", &format!(
-                        "memcheck: {} history=[{}]",
-                        r.mem_errors.first().cloned().unwrap_or_else(|| "worker died".into()), l));
-                } else {
-                    out.oracle_fail("C15", "new", &format!("memcheck {} in a history the ownership model calls safe history=[{}]",
-                        r.mem_errors.first().cloned().unwrap_or_else(|| "worker died".into()), l));
-                }
+                out.oracle_fail("C15", "new", &format!("memcheck {} in a history the ownership model calls safe ({}) history=[{}]",
+                    r.mem_errors.first().cloned().unwrap_or_else(|| "worker died".into()),
+                    if name.starts_with("w-f22") { "recurrence of F22: the stored user-phrase iterator is used after the dictionary changed" } else { "twin" }, l));
             } else {
                 exact_clean += 1;
-                if name.starts_with("w-f22") {
-                    out.sample(&format!("witness {} is clean under memcheck on this tree (F22 repaired?)", name));
-                }
+            }
+            for p in &r.problems {
+                out.oracle_fail("C15", "new", &format!("{} (under memcheck) history=[{}]", p, l));
             }
         }
         out.stat("memcheck_exact_ub", exact_ub);
         out.stat("memcheck_exact_clean", exact_clean);
 
-        // disciplined histories under memcheck: must be clean
+        // random histories under memcheck (every second one without the protocol discipline): must be clean
         let n_disc = if thorough { 300 } else { 60 };
         for i in 0..n_disc {
             let (dict, user) = gen_setup(&mut rng);
             let len = 12 + rng.below(30) as usize;
-            let ops = gen_ops(&mut rng, true, len);
+            let ops = gen_ops(&mut rng, i % 2 == 0, len);
             mem_lines.push(format!("m{} S {} {} {}", i, dict, user, ops.join(",")));
         }
         let (mres, mcrashes) = run_all(&mem_lines, true, if thorough { 30 } else { 30 });
@@ -1716,7 +1834,7 @@ fn parent_main() {
                     let ub = has_memcheck_error(r);
                     out.rec(&format!("own mem {} => {}", r.calls, if ub { "ub" } else { "clean" }));
                     if ub {
-                        out.oracle_fail("C15", "new", &format!("memcheck {} in a history without a mutation between enumerate and has_next/get history=[{}]", r.mem_errors[0], l));
+                        out.oracle_fail("C15", "new", &format!("memcheck {} in a history the ownership model calls safe history=[{}]", r.mem_errors[0], l));
                     } else {
                         clean += 1;
                     }
@@ -1734,10 +1852,11 @@ fn parent_main() {
                 out.oracle_fail("C15", "new", &format!("crash worker died under memcheck ({}) stderr=[{}] history=[{}]", status, tail.chars().take(400).collect::<String>(), l));
             }
         }
-        out.stat("memcheck_disciplined_histories", mem_lines.len());
-        out.stat("memcheck_disciplined_clean", clean);
+        out.stat("memcheck_random_histories", mem_lines.len());
+        out.stat("memcheck_random_clean", clean);
 
-        // undisciplined histories (thorough): a memcheck error must have been predicted by the model
+        // mutations inside the user-phrase enumeration (thorough; the shape of the former finding F22): the model predicts
+        // no use of an invalid object, so any memcheck error is a violation
         if thorough {
             let mut predicted_seen = 0u64;
             let mut total = 0u64;
@@ -1748,7 +1867,7 @@ fn parent_main() {
                 let mut ops = gen_ops(&mut rng, false, len);
                 let mut user = user;
                 if i % 2 == 0 {
-                    // structured F22 shape: part of an enumeration, a mutation of some kind, the rest of the enumeration
+                    // structured shape: part of an enumeration, a mutation of some kind, the rest of the enumeration
                     user = if rng.chance(1, 4) { "M".to_string() } else { format!("F{}.{}.{}", rng.below(12), rng.below(12), rng.below(12)) };
                     ops = vec!["ue".to_string()];
                     for _ in 0..rng.below(3) {
@@ -1774,7 +1893,7 @@ fn parent_main() {
                         ops.push((*rng.pick(&["uh", "ug", "ug"])).to_string());
                     }
                 }
-                let l = format!("u{} U T {} {}", i, user, ops.join(","));
+                let l = format!("u{} S T {} {}", i, user, ops.join(","));
                 let o = run_worker(&[l.clone()], true);
                 if let Some(r) = o.results.get(&format!("u{}", i)) {
                     if r.ended {
@@ -1783,13 +1902,19 @@ fn parent_main() {
                         predicted_seen += ub as u64;
                         out.rec(&format!("own memsub {} {} => ok", if ub { "ub" } else { "clean" }, r.calls));
                         if ub {
-                            out.oracle_fail("C15", "F22-userphrase-iter-stale", &format!("memcheck: {} history=[{}]", r.mem_errors[0], l));
+                            out.oracle_fail("C15", "new", &format!("memcheck {} in a history the ownership model calls safe history=[{}]", r.mem_errors[0], l));
                         }
+                        for p in &r.problems {
+                            let class = p.split(' ').nth(1).unwrap_or("new");
+                            out.oracle_fail("C15", if class == "same-overlong" { class } else { "new" }, &format!("{} (under memcheck) history=[{}]", p, l));
+                        }
+                    } else {
+                        out.oracle_fail("C15", "new", &format!("crash worker died under memcheck history=[{}]", l));
                     }
                 }
             }
-            out.stat("memcheck_undisciplined_histories", total);
-            out.stat("memcheck_undisciplined_with_errors", predicted_seen);
+            out.stat("memcheck_mutation_inside_enumeration_histories", total);
+            out.stat("memcheck_mutation_inside_enumeration_with_errors", predicted_seen);
         }
     } else {
         out.stat("memcheck_skipped", 1);
